@@ -311,8 +311,13 @@ def retry_sched_shard(kind: str, seed: int, runs: int, known: list[str]) -> dict
             sim = Sim(mr, rf)
             exp = sim.call(node, "r")
             if pi not in est:
-                _, _, env0 = run_dist(kind, node, "plain", mr, rf, clock, det, shared, extra_trace=RETRY_TRACE if kind == "mem" else ())
-                est[pi] = max(50, env0.steps)
+                o0, _, env0 = run_dist(kind, node, "plain", mr, rf, clock, det, shared, extra_trace=RETRY_TRACE if kind == "mem" else (), max_steps=60_000, stall=(6000, 3))
+                est[pi] = min(4000, max(50, env0.steps)) if o0 is not None else 0
+            if not est[pi]:
+                part.event("baseline_did_not_end")  # the round-robin run of this program did not end within its budget: the programs part judges that
+                continue
+            if False:
+                pass
             pseed = seed * 1_000_003 + i
             policy = sched.PCT(random.Random(pseed), 2, est[pi])
             o, runs_seen, env = run_dist(kind, node, "plain", mr, rf, clock, det, shared, policy=policy, extra_trace=RETRY_TRACE if kind == "mem" else (), max_steps=40 * est[pi], stall=(10 * est[pi], 3))
@@ -349,6 +354,9 @@ def run(ctx: Ctx) -> None:
     jobs = [(ctx.seed * 100 + k, ex, "plain" if k % 4 else "direct", known) for k in range(n)]
     merge_parts(ctx, pmap(shard, jobs))
     per = 36 if ctx.quick else 1500
+    if ctx.quick and any(p.violations for p in ctx.parts.values()):
+        ctx.assumptions.append("retry-schedule search skipped in this run: the programs part already reported a violation")
+        return
     merge_parts(ctx, pmap(retry_sched_shard, [(kind, ctx.seed * 100 + k, per, known) for k in range(n // 2) for kind in ("mem", "sqlite")]))
     ctx.assumptions.append("group results are compared as sums (order-insensitive); programs with a raise below a group are compared by outcome class only (which failing member surfaces first depends on completion order)")
     ctx.assumptions.append("body executions are counted per program node by the interpreter task (process-local table)")
